@@ -58,7 +58,16 @@ func zzSeqFault(n int) {
 	seq0 := db.seq
 	res := make([]error, n)
 	for i := 0; i < n; i++ {
-		res[i] = db.Put([]byte{byte('a' + i)}, []byte{byte('A' + i)}, &opt.WriteOptions{Sync: true})
+		if vpChoose(2) == 0 {
+			res[i] = db.Put([]byte{byte('a' + i)}, []byte{byte('A' + i)}, &opt.WriteOptions{Sync: true})
+		} else {
+			// a batch of several records (their sequence numbers form a range)
+			b := new(Batch)
+			b.Put([]byte{byte('a' + i)}, []byte{byte('A' + i)})
+			b.Put([]byte{byte('p' + i)}, []byte{byte('P' + i)})
+			b.Delete([]byte{byte('x' + i)})
+			res[i] = db.Write(b, &opt.WriteOptions{Sync: true, NoWriteMerge: true})
+		}
 		vpAssert(len(db.writeLockC) == 0, "write-lock-released")
 		// running DB: acknowledged iff readable
 		_, gerr := db.get(nil, nil, []byte{byte('a' + i)}, db.seq, nil)
